@@ -1931,7 +1931,21 @@ impl<'t, 'd> Gen<'t, 'd> {
                 4 => {
                     self.had_take = true;
                     self.ntakes += 1;
-                    Some(self.gen_take())
+                    if self.t.chance(1, 4) {
+                        // `take a.. | take n`: an open-ended take bounded by the next one (the two
+                        // are merged into one LIMIT/OFFSET, so no OFFSET without LIMIT is emitted)
+                        let lo = self.t.range(1, 4);
+                        steps.push(Step::Take { lo: Some(lo), hi: None, single: false });
+                        let n = self.t.range(1, 4);
+                        if self.t.chance(1, 2) {
+                            Some(Step::Take { lo: None, hi: Some(n), single: true })
+                        } else {
+                            let l2 = self.t.range(1, 3);
+                            Some(Step::Take { lo: Some(l2), hi: Some(l2 + n), single: false })
+                        }
+                    } else {
+                        Some(self.gen_take())
+                    }
                 }
                 5 => {
                     if ord.ordered && ord.key_dropped { self.touch("dropped_key_join"); }
